@@ -13,8 +13,8 @@ space whose two lists have length <= 3, and every script of the 'long' space, is
 iter(list), as a generator, as io.StringIO / io.BytesIO of the joined text and as an open (temporary) file positioned at
 its start - the last four can be read once only; the result must be the same target lines.  The corrupted / truncated
 scripts are supplied again in every kind for lists of length <= 2 and as iter(list) and io stream for length 3; each must
-still raise ValueError.  A failure that the list form of the same script shows too is left to the list case; one that
-only the other kind shows is reported as ed/input-kind/<kind>/...
+still raise ValueError.  One case = one script with all its other kinds.  A failure that the list form of the same script
+shows too is left to the list case; one that only other kinds show is reported as ed/input-kind/<which kinds>/...
 """
 import io
 import os
@@ -262,21 +262,48 @@ def _one(case, binary, kind="list"):
     return ("ed/%s/accepted" % case["what"], "ValueError", "no exception; lines = %r" % (lines,))
 
 
-def _one_kind(case, binary, kind):
-    r = _one(case, binary, kind)
-    if r is None or kind == "list":
-        return r
-    ref = _one(case, binary, "list")
-    if ref is not None and ref[0] == r[0]:
-        return None                 # the list form of the same script fails the same way: reported by the list case
-    return ("ed/input-kind/%s/%s" % (kind, r[0][3:]), "%r, as for the same script given as a list" % (r[1],), r[2])
+ONE_SHOT = ("iter", "generator", "stream", "file")
+
+
+def _kinds(case, binary):
+    """the input kinds of case["via"] for one type -> None or (sig, expected, observed).  A failure that the list form of
+    the same script shows too is left to the list case.  The signature names which kinds fail: 'one-shot' (every kind
+    tried that can be read only once, and no other), 'every-kind', or the names of the failing kinds."""
+    failing = []
+    ref = False
+    for kind in case["via"]:
+        r = _one(case, binary, kind)
+        if r is None:
+            continue
+        if ref is False:
+            ref = _one(case, binary, "list")
+        if ref is not None and ref[0] == r[0]:
+            continue
+        failing.append((kind, r))
+    if not failing:
+        return None
+    names = [k for k, _r in failing]
+    if len(names) > 1 and names == [k for k in case["via"] if k in ONE_SHOT]:
+        label = "one-shot"
+    elif len(names) > 1 and len(names) == len(case["via"]):
+        label = "every-kind"
+    else:
+        label = "+".join(names)
+    kind, (sig, exp, obs) = failing[0]
+    parts = sig.split("/")[1:]
+    if parts[0] == "corrupt":
+        parts[:2] = ["malformed-command"]
+    elif parts[0] == "apply" and parts[-1] == "wrong-result":
+        parts = ["apply", "wrong-result"]
+    return ("ed/input-kind/%s/%s" % (label, "/".join(parts)),
+            "%r for the script given as %s, as for the list" % (exp, ", ".join(names)), "%s: %s" % (kind, obs))
 
 
 def exec_case(case):
     """-> list of (sig, expected, observed); [] = passes.  Shared by run_unit and replay."""
-    kind = case.get("via", "list")
-    rs = _one_kind(case, False, kind)
-    rb = _one_kind(case, True, kind)
+    one = _kinds if "via" in case else _one
+    rs = one(case, False)
+    rb = one(case, True)
     if rs is None and rb is None:
         return []
     if rs is not None and rb is not None and rs[0] == rb[0]:
@@ -325,9 +352,10 @@ def run_unit(u, tier, seed):
 
     def run(case, outcome, nontrivial):
         bad = exec_case(case)
-        part.traces += 2
-        part.evaluations += 2
-        part.transitions += 2 * len(case["script"])
+        n = 2 * len(case.get("via", "1"))       # str and bytes, every input kind
+        part.traces += n
+        part.evaluations += n
+        part.transitions += n * len(case["script"])
         for sig, exp, obs in bad:
             part.violation(sig, case, exp, obs)
         if bad:
@@ -335,7 +363,7 @@ def run_unit(u, tier, seed):
         else:
             part.outcomes[outcome] += 1
             if nontrivial:
-                part.nontrivial += 1
+                part.nontrivial += n // 2
 
     try:
         external = differ.scripts([(old, new) for new in news]) if differ is not None else None
@@ -358,23 +386,21 @@ def run_unit(u, tier, seed):
                     part.sample(case)
                 small = u["space"] == "base" and len(old) <= KIND_MAXLEN and len(new) <= KIND_MAXLEN
                 if small or u["space"] == "long":
-                    for kind in KINDS:
-                        run(dict(case, via=kind), "via %s: applied, %s" % (
-                            kind, "no command" if not forms else "one command" if len(forms) == 1 else "several commands"),
-                            len(forms) >= 2)
-                        part.extra["valid scripts given as another input kind"] += 1
+                    run(dict(case, via=KINDS), "other input kinds (%s): applied:%s" % (
+                        ", ".join(KINDS), "+".join(forms) or "(empty script)"), len(forms) >= 2)
+                    part.extra["valid scripts x other input kinds"] += len(KINDS)
                     if idx == len(news) // 2 and src == "model":
-                        part.sample(dict(case, via="stream"))
+                        part.sample(dict(case, via=KINDS))
                 if u["space"] == "base" and len(old) <= CORRUPT_MAXLEN and len(new) <= CORRUPT_MAXLEN:
                     tiny = len(old) <= KIND_CORRUPT_ALL_MAXLEN and len(new) <= KIND_CORRUPT_ALL_MAXLEN
                     for dcase, k, form in _derived(old, new, script, src):
                         part.states += 1
                         run(dcase, "rejected:%s@%s-command:%s" % (dcase["what"], "first" if k == 0 else "later", form), k > 0)
                         part.extra["corrupted or truncated scripts"] += 1
-                        for kind in (KINDS if tiny else KINDS_FEW):
-                            run(dict(dcase, via=kind), "via %s: rejected:%s@%s-command" % (
-                                kind, dcase["what"].split("/")[0], "first" if k == 0 else "later"), k > 0)
-                            part.extra["corrupted or truncated scripts given as another input kind"] += 1
+                        via = KINDS if tiny else KINDS_FEW
+                        run(dict(dcase, via=via), "other input kinds (%s): rejected:%s@%s-command:%s" % (
+                            ", ".join(via), dcase["what"], "first" if k == 0 else "later", form), k > 0)
+                        part.extra["corrupted or truncated scripts x other input kinds"] += len(via)
     finally:
         if differ is not None:
             differ.close()
@@ -389,7 +415,7 @@ def repro_py(case):
     return ("import io, tempfile\n"
             "from debian.debian_support import patches_from_ed_script, patch_lines\n"
             "case = %r\n"
-            "def source(lines, binary, kind=case.get('via', 'list')):\n"
+            "def source(lines, binary, kind):\n"
             "    if kind in ('stream', 'file'):\n"
             "        text = (b'' if binary else '').join(lines)\n"
             "        if kind == 'stream':\n"
@@ -398,14 +424,15 @@ def repro_py(case):
             "        f.write(text); f.flush(); f.seek(0)\n"
             "        return f\n"
             "    return {'list': list, 'tuple': tuple, 'iter': iter, 'generator': lambda ls: (l for l in ls)}[kind](lines)\n"
-            "for binary, conv in ((False, list), (True, lambda ls: [l.encode('utf-8') for l in ls])):\n"
+            "for kind in case.get('via', ['list']):\n"
+            "  for binary, conv in ((False, list), (True, lambda ls: [l.encode('utf-8') for l in ls])):\n"
             "    lines = conv(case['old'])\n"
             "    if case['kind'] == 'apply':\n"
-            "        patch_lines(lines, patches_from_ed_script(source(conv(case['script']), binary)))\n"
-            "        assert lines == conv(case['new']), lines\n"
+            "        patch_lines(lines, patches_from_ed_script(source(conv(case['script']), binary, kind)))\n"
+            "        assert lines == conv(case['new']), (kind, lines)\n"
             "    else:\n"
             "        try:\n"
-            "            patch_lines(lines, patches_from_ed_script(source(conv(case['script']), binary)))\n"
+            "            patch_lines(lines, patches_from_ed_script(source(conv(case['script']), binary, kind)))\n"
             "        except ValueError:\n"
             "            continue\n"
-            "        raise AssertionError('malformed script accepted; lines = %%r' %% (lines,))\n" % (case,))
+            "        raise AssertionError('malformed script accepted as %%s; lines = %%r' %% (kind, lines))\n" % (case,))
